@@ -110,8 +110,9 @@ impl Epoch {
             days.is_finite(),
             "Attempted to initialize Epoch with non finite number"
         );
+        // NOTE: The duration of an epoch is counted from the reference epoch of its own time scale, not from 1900.
         Self {
-            duration: (days - MJD_J1900) * Unit::Day,
+            duration: (days - MJD_J1900) * Unit::Day - time_scale.gregorian_epoch_offset(),
             time_scale,
         }
     }
@@ -147,8 +148,10 @@ impl Epoch {
             days.is_finite(),
             "Attempted to initialize Epoch with non finite number"
         );
+        // NOTE: The duration of an epoch is counted from the reference epoch of its own time scale, not from 1900.
         Self {
-            duration: (days - MJD_J1900 - MJD_OFFSET) * Unit::Day,
+            duration: (days - MJD_J1900 - MJD_OFFSET) * Unit::Day
+                - time_scale.gregorian_epoch_offset(),
             time_scale,
         }
     }
